@@ -154,8 +154,9 @@ Result(api, sk, kk, n, L, R, ss, ks) ==
          [] api \in {"cbc", "ssts", "asts"} -> PlumbObs(Cbc(sk, kk, e))
          [] api \in {"ncbc", "nsts"} -> PlumbObs(NCbc(sk, kk, e, n, 0))
          [] api \in {"dcbc", "dsts"} -> PlumbObs(DrainCbc(sk, kk, e))
-         [] api = "someaux" -> PlumbObs(SomeAux(sk, kk, e, R))
-         [] api = "amaux" -> PlumbObs(SomeAux(sk, kk, e, MinOf(R, n)))
+         \* (R > 10 encodes a designated region of R - 10 octets that starts 2 octets into the auxiliary block)
+         [] api = "someaux" -> PlumbObs(SomeAux(sk, kk, e, R % 10))
+         [] api = "amaux" -> PlumbObs(SomeAux(sk, kk, e, MinOf(R % 10, n)))
          [] api = "naux" -> LET r == NAux(sk, kk, e, R, n) IN PlumbObs(IF r.rc < 0 THEN r ELSE Ret(n, r.e))
          [] OTHER -> PlumbObs(DrainAux(sk, kk, e, R))     \* "daux"
 
@@ -206,9 +207,10 @@ Next == /\ phase[1] = "b" /\ ev' = Boot
               \/ /\ api = "geto" /\ \E L \in {0, 1}, ss \in Scripts(Beh, 1) : phase' = <<"c", api, k, 2, 1, L, 0, ss, <<>>>>
               \/ /\ api = "puto" /\ \E ks \in Scripts(Beh, 1) : phase' = <<"c", api, 2, k, 1, 0, 0, <<>>, ks>>
               \/ /\ api \in PlApis
-                 /\ \E kk \in {1, 2}, n \in 1..3, L \in {2, 4}, R \in {1, 2, 3},
+                 /\ \E kk \in {1, 2}, n \in 1..3, L \in {2, 4}, R \in {1, 2, 3, 11, 12, 13},   \* R + 10: the region starts 2 octets into the block
                        ss \in Scripts(PBeh, MaxPScript), ks \in Scripts(PBeh, MaxKScript) :
                        /\ (api \in {"cbc", "ncbc", "dcbc", "ssts", "asts", "nsts", "dsts"} => R = 1)
+                       /\ (api \notin {"someaux", "amaux"} => R < 10)
                        /\ (api \in {"cbc", "dcbc", "someaux", "daux", "ssts", "dsts"} => n = 1)
                        /\ phase' = <<"c", api, k, kk, n, L, R, ss, ks>>
 Spec == Init /\ [][Next]_<<vars, ev>>
